@@ -40,6 +40,17 @@ def gen(rng, tier):
     cases = []
     for g in range(n):
         s = G.gen_solvable(rng)
+        sym = (g % 7 == 3)
+        if sym:
+            # a beam built in at both ends with a force in the middle (shear +P/2 | -P/2, equal magnitudes either side) in one half of
+            # the load set, and a load that breaks the symmetry in the other half
+            s = G.gen_beam(rng)
+            b = s.bars[0]
+            s.nodes[b["n1"]] = s.nodes[b["n1"]][:2] + ((True, True, True),)
+            s.nodes[b["n2"]] = s.nodes[b["n2"]][:2] + ((True, True, True),)
+            s.loads = [{"kind": "c", "term": "fy", "local": True, "bar": b["id"], "t": Fr("0.5"), "v": Fr(-1000)},
+                       {"kind": "c", "term": "mz", "local": True, "bar": b["id"], "t": Fr("0.5"), "v": Fr(40000)},
+                       {"kind": "c", "term": "fy", "local": True, "bar": b["id"], "t": Fr("0.3"), "v": Fr(-350)}]
         if len(s.loads) < 2:
             s.loads += G.gen_loads_for_bar(rng, s.bars[0]["id"], nmax=3, allow_mz_dist=False) or []
         # every factor is used by some group of every run (the tiny ones push whole load sets under the
@@ -57,6 +68,8 @@ def gen(rng, tier):
         ks = [FACTORS[g % len(FACTORS)]]
         ks.append(rng.choice([k for k in FACTORS if k != ks[0]]))
         half = [rng.random() < 0.5 for _ in s.loads]
+        if sym:
+            half = [True, True, False]
         if g % 2 == 0:
             # two concentrated loads closer than the slicing tolerance (1e-3) but distinct, one in each half
             b = rng.choice([b for b in s.bars if b["l1"][2] or b["l2"][2]] or s.bars)
